@@ -39,9 +39,9 @@ CLAIMED = {
    note="Assumes go/ssa faithful, z3 sound; C05 summaries. Known finding (open): fixed amounts supplied with more decimals than they are presented at are rounded in place, so recalculation changes totals (class C04-fixed-amount-rounded-in-place).",
    ref="DESIGN.md 5 (C04), 6"),
  "C17": dict(
-   text="Bounded model checking (z3) on invoice skeletons with all prices/amounts symbolic. Quick: swapping the two lines of a document (with every combination of optional discounts, charges, advances, tax-included prices, both rounding rules) changes no line figure, no document total and no tax group (2-safety: the real calculate is run on both orders). Thorough adds: Invoice.Invert succeeds, negates every line total / tax amount / document total and twice restores them; removing included taxes yields payable = original total with tax with the residue in the rounding field - these relational queries are hard for the solver and whatever stays unknown is reported as not covered.",
-   note="Assumes go/ssa faithful, z3 sound, C05 summaries. Outside: permutations of more than two rows; discounts/charges with explicit bases and explicit-quantity rate charges (where Invert is known to fail, DESIGN 8 #14, not yet re-found by a check).",
-   ref="DESIGN.md 5 (C17)"),
+   text="Bounded model checking (z3) on invoice skeletons with all prices/amounts symbolic. Quick: (1) swapping the two lines of a document (every combination of optional discounts, charges, advances, tax-included prices, both rounding rules) changes no line figure, no document total and no tax group (2-safety: the real calculate runs on both orders); (2) Invoice.Invert succeeds, negates every line total, tax amount and document total, and twice restores them (one line with discounts, charges and advances, or two lines with discounts; thorough: two rich lines). The negation proof works because rounding half away from zero is encoded on a sign-canonical orientation of its argument, so that a computation and the same computation on negated inputs share their division witnesses. Thorough adds: removing included taxes yields payable = original total with tax with the residue in the rounding field (relational over different computations: whatever stays unknown is reported as not covered).",
+   note="Assumes go/ssa faithful, z3 sound, C05 summaries (lemmas re-run first). Fixed amounts and rates are assumed non-zero in the Invert harness (a zero row is dropped by normalisation, i.e. it is the shape without the row). Outside: permutations of more than two rows; discounts/charges with explicit bases. Known finding (open): RemoveIncludedTaxes with a fixed document-level discount or charge (C17-remove-included-fixed-document-row).",
+   ref="DESIGN.md 5 (C17), 10"),
  "C09": dict(
    text="Bounded model checking (z3) of signature verification logic: Header.Contains equals the seven-clause containment relation for every pattern of equal/different identifier, digest, stamps, links, tags, meta and notes (one-byte symbolic strings) and is monotone under additions; Envelope.Verify / VerifySignature accept iff a supplied key is the signer's and the current header contains the signed header (0-2 keys, either signer); cli.Verify - the single function behind the verify command, the bulk verify action and the HTTP endpoint - reports success iff the key is the signer's and the header was not changed after signing. JWS, parsing and validation are contract stubs in symbolic runs; counterexamples are replayed natively with real ES256 keys and real signed envelopes.",
    note="Assumes the JWS contract (verification with the signing key returns the signed payload, any other key fails), go/ssa faithful, z3 sound. Outside: ES256/JOSE themselves, JSON/YAML parsing. Defects found and fixed: 9131962 (nil digest panic), 8d4173a (cli.Verify ignored the header).",
